@@ -176,7 +176,7 @@ pub mod bincode {
     }
 }
 
-/// bufio.rs (R-stub-body for its trait impls; bounded Kani stand-in on the verbatim file): position-tracking
+/// bufio.rs (its bodies are verified in unit bufio against shim Read / Write / Seek traits; here only the shape): position-tracking
 /// wrappers around std's BufWriter / BufReader
 #[verifier::external_body]
 #[verifier::reject_recursive_types(W)]
